@@ -151,6 +151,28 @@ def escape_task(t):
     return dict(n=n, distinct=n, violations=viols, sample=None)
 
 
+def many_task(t):
+    """listings of N names (short lines, replies far longer than one read): every name must come back, whatever N"""
+    N, lit_every = t
+    names = ["script-%04d" % i for i in range(N)]
+    ch = refms.FixedChoices({"list-name-literal": (lambda k: 1 if lit_every and k % lit_every == 0 else 0)})
+    viols = []
+    n = 0
+    for seg in (None, ("cap", 4096), ("cap", 1460), ("cap", 7)):
+        srv = refms.RefServer(ch=ch, store={nm: b"keep;\r\n" for nm in names}, active=names[N // 2])
+        s = wire.open_session(srv)
+        s.cur_socket().set_seg(seg)
+        o = s.call("listscripts")
+        n += 1
+        ok = (o.kind == "ret" and isinstance(o.value, tuple) and len(o.value) == 2 and o.value[0] == names[N // 2]
+              and sorted(o.value[1] or []) == sorted(x for x in names if x != names[N // 2]))
+        if not ok:
+            viols.append({"property": "C17", "engine": "wire", "signature": ["C17", "listscripts", "many-names", "wrong-value" if o.kind == "ret" else (o.exc_type or o.kind)],
+                          "what": "listing of %d names (every %r-th as a literal) delivered %r read back as %s" % (N, lit_every, seg, o.brief()[:120]),
+                          "case": {"kind": "many", "N": N, "lit_every": lit_every}, "witness": "listscripts with %d names, delivery %r" % (N, seg), "observed": o.brief()[:120]})
+    return dict(n=n, distinct=n, violations=viols, sample=None)
+
+
 def run(tier, seed):
     maxlines = 3 if tier == "quick" else 4
     maxn = 3 if tier == "quick" else 4
@@ -165,7 +187,9 @@ def run(tier, seed):
     r3 = pool.run_tasks("checks.c17:boundary_task", [(lo, lo + 8) for lo in range(4040, 4120, 8)] + ([(lo, lo + 8) for lo in range(8130, 8220, 8)] if tier != "quick" else []))
     top = 64 if tier == "quick" else 512
     r4 = pool.run_tasks("checks.c17:escape_task", [(lo, min(top + 1, lo + 8)) for lo in range(1, top + 1, 8)])
-    res = r1 + r2 + r3 + r4
+    sizes = [2 ** k for k in range(4, 11 if tier == "quick" else 14)] + [300, 400, 1000]
+    r5 = pool.run_tasks("checks.c17:many_task", [(N, le) for N in sizes for le in (0, 3)])
+    res = r1 + r2 + r3 + r4 + r5
     n = sum(r["n"] for r in res)
     viols = []
     for r in res:
@@ -180,6 +204,8 @@ def run(tier, seed):
 
 def replay(payload):
     c = payload["case"]
+    if c["kind"] == "many":
+        return many_task((c["N"], c["lit_every"]))["violations"]
     if c["kind"] == "escapes":
         r = escape_task((c["k"], c["k"] + 1))
         return [dict(v, signature=v["signature"]) for v in r["violations"]]
